@@ -109,49 +109,50 @@ func C14(tier string) int {
 			samples = append(samples, name)
 		}
 	}
-	for l := 1; l <= maxLen; l++ {
-		var next [][]refsem.Step
-		for _, p := range level {
-			// marks defined before use (property scope)
-			ok := true
-			marks := map[string]bool{}
-			for _, s := range p {
-				if s.Op == "as" {
-					marks[s.Strs[0]] = true
-				}
-				if s.Op == "select" {
-					for _, m := range s.Strs {
-						if !marks[m] {
-							ok = false
-						}
+	// depth-first (memory proportional to the length bound, not to the number of programs); the last level
+	// is thinned by a fixed stride: 1 in 5 of the length-4 programs (quick), 1 in 10 of the length-5 programs
+	// (thorough); everything shorter is complete
+	stride := 5
+	if thorough {
+		stride = 10
+	}
+	lastCtr := 0
+	var rec func(p []refsem.Step, l int)
+	rec = func(p []refsem.Step, l int) {
+		// marks defined before use (property scope)
+		marks := map[string]bool{}
+		for _, s := range p {
+			if s.Op == "as" {
+				marks[s.Strs[0]] = true
+			}
+			if s.Op == "select" {
+				for _, m := range s.Strs {
+					if !marks[m] {
+						return
 					}
 				}
 			}
-			if !ok {
+		}
+		check(refsem.ProgName(p), refsem.Stmts(p), opSeq(p))
+		check(refsem.ProgName(p)+".aggregate(term)", append(refsem.Stmts(p), aggStmt), opSeq(p)+".aggregate")
+		if l >= maxLen {
+			return
+		}
+		for _, s := range alpha {
+			if !thorough && l >= 3 && (s.Op == "has" || s.Op == "hasKey" || s.Op == "hasId") && len(s.Strs) != 1 && s.Has == nil {
 				continue
 			}
-			check(refsem.ProgName(p), refsem.Stmts(p), opSeq(p))
-			check(refsem.ProgName(p)+".aggregate(term)", append(refsem.Stmts(p), aggStmt), opSeq(p)+".aggregate")
-			if l < maxLen {
-				for _, s := range alpha {
-					if !thorough && l >= 3 && (s.Op == "has" || s.Op == "hasKey" || s.Op == "hasId") && len(s.Strs) != 1 && s.Has == nil {
-						continue
-					}
-					next = append(next, append(append([]refsem.Step{}, p...), s))
+			if l == maxLen-1 {
+				lastCtr++
+				if lastCtr%stride != 1 {
+					continue
 				}
 			}
+			rec(append(append(make([]refsem.Step, 0, len(p)+1), p...), s), l+1)
 		}
-		level = next
-		if !thorough && l == 3 {
-			// the last level of the quick tier extends only a stride of the prefixes
-			var thin [][]refsem.Step
-			for i, p := range level {
-				if i%5 == 0 {
-					thin = append(thin, p)
-				}
-			}
-			level = thin
-		}
+	}
+	for _, p := range level {
+		rec(p, 1)
 	}
 
 	// ---- (2) filter meaning
@@ -364,7 +365,7 @@ func C14(tier string) int {
 	run.Coverage["scalar_documents"] = len(docs)
 	run.Coverage["distinct_nontrivial"] = len(distinct) + accepted
 	run.Coverage["exhaustive"] = true
-	run.Coverage["rule"] = "typing: every sequence up to the length bound over starts + 59 step instances (+ a trailing aggregate), marks defined before use (quick: last level extends a 1-in-5 stride); filters: 12 operators x all argument shapes of the C08 grid x 10 scalar documents, then and/or/not expressions of nesting <=2 (3) in which every operator occurs as an atom (<=2 atoms per operator), compared on the documents on which all atoms of the expression are translated faithfully"
+	run.Coverage["rule"] = "typing: every sequence up to the length bound over starts + 59 step instances (+ a trailing aggregate), marks defined before use (the last level is thinned by a fixed stride: 1 in 5 at length 4 quick, 1 in 10 at length 5 thorough; all shorter programs are complete); filters: 12 operators x all argument shapes of the C08 grid x 10 scalar documents, then and/or/not expressions of nesting <=2 (3) in which every operator occurs as an atom (<=2 atoms per operator), compared on the documents on which all atoms of the expression are translated faithfully"
 	if len(samples) == 0 {
 		samples = []string{"V().as(m1).outE(x).select(m1)"}
 	}
